@@ -16,6 +16,7 @@ import (
 	"fmt"
 	"go/ast"
 	"go/constant"
+	"go/printer"
 	"go/token"
 	"go/types"
 	"strings"
@@ -85,6 +86,18 @@ func init() {
 			[]string{"computeConsolidation", "Validate"})
 		g.callSeq(c06Group, dis, "Emptiness.ComputeCommands", "emptinessComputeCalls",
 			[]string{"Validate"})
+
+		// Emptiness: the command that is RETURNED is the one the validator returned (its candidates narrowed to those that
+		// are still empty candidates after the delay)
+		g.c06Guards(dis, "Emptiness.ComputeCommands", "emptinessComputeGuards")
+		g.c06AssignOfCall(dis, "Emptiness.ComputeCommands", "Validate", "emptinessValidateAssign")
+		g.c06FinalReturn(dis, "Emptiness.ComputeCommands", "emptinessComputeReturns")
+		g.c06Skeleton(dis, "EmptinessValidator.Validate", "emptinessValidateSkeleton")
+		g.c06Cmps(dis, "EmptinessValidator.validateCandidates", "emptinessValidateCandidatesCmps")
+		g.callSeq(c06Group, dis, "EmptinessValidator.validateCandidates", "emptinessValidateCandidatesCalls",
+			[]string{"GetCandidates", "mapCandidates", "BuildDisruptionBudgetMapping", "IsNodeNominated"})
+		g.callSeq(c06Group, dis, "Emptiness.ShouldDisrupt", "emptinessShouldDisruptCalls",
+			[]string{"IsEmpty"})
 	})
 }
 
@@ -121,6 +134,63 @@ func (g *gen) c06Cmps(pkgPath, fn, lean string) {
 		fmt.Fprintf(b, "\n  %s", leanStr(s))
 	}
 	b.WriteString("]\n\n")
+}
+
+// c06AssignOfCall emits every assignment (also the init statement of an `if`) whose right-hand side is a call of
+// `callee` (last selector), as written: which variables receive the call's results.
+func (g *gen) c06AssignOfCall(pkgPath, fn, callee, lean string) {
+	_, fd := g.findFunc(pkgPath, fn)
+	if fd == nil {
+		return
+	}
+	var out []string
+	ast.Inspect(fd.Body, func(n ast.Node) bool {
+		as, ok := n.(*ast.AssignStmt)
+		if !ok || len(as.Rhs) != 1 {
+			return true
+		}
+		ce, ok := as.Rhs[0].(*ast.CallExpr)
+		if !ok {
+			return true
+		}
+		name := exprString(ce.Fun)
+		if name != callee && !strings.HasSuffix(name, "."+callee) {
+			return true
+		}
+		var l []string
+		for _, e := range as.Lhs {
+			l = append(l, types.ExprString(e))
+		}
+		out = append(out, strings.Join(l, ", ")+" "+as.Tok.String()+" "+types.ExprString(as.Rhs[0]))
+		return true
+	})
+	b := g.out(c06Group)
+	fmt.Fprintf(b, "/-- the assignments of a `%s` call's results inside `%s.%s` (%s), as written -/\ndef %s : List String := [", callee, pkgPath, fn, g.pos(fd.Pos()), lean)
+	for i, s := range out {
+		if i > 0 {
+			b.WriteString(",")
+		}
+		fmt.Fprintf(b, "\n  %s", leanStr(s))
+	}
+	b.WriteString("]\n\n")
+}
+
+// c06FinalReturn emits the function's last statement printed in full (composite literals with their elements): which
+// value is handed back on the success path.
+func (g *gen) c06FinalReturn(pkgPath, fn, lean string) {
+	_, fd := g.findFunc(pkgPath, fn)
+	if fd == nil {
+		return
+	}
+	txt := "(no statement)"
+	if n := len(fd.Body.List); n > 0 {
+		var sb strings.Builder
+		if err := printer.Fprint(&sb, token.NewFileSet(), fd.Body.List[n-1]); err == nil {
+			txt = strings.Join(strings.Fields(sb.String()), " ")
+		}
+	}
+	b := g.out(c06Group)
+	fmt.Fprintf(b, "/-- the last statement of `%s.%s` (%s), in full -/\ndef %s : String := %s\n\n", pkgPath, fn, g.pos(fd.Pos()), lean, leanStr(txt))
 }
 
 // c06Return renders a return statement: call results keep the callee only (`return NewFooError(…)`), everything else
